@@ -95,6 +95,7 @@ COMBOS = [
 NAMED = [['count', False], ['count', True], ['sum', False], ['sum', True], ['mean', False], ['mean', True], ['min', False], ['min', True],
          ['max', False], ['max', True], ['variance', False], ['variance', True], ['to_list'], ['to_array', 'q'], ['batch', 2], ['batch', 3],
          ['duc', None], ['duc', 'mod:2'], ['progress', 2, False], ['dist.update', False], ['dist.update', True]]
+NAMED_SCALE = [['batch', 257], ['batch', 1024], ['batch', 300], ['count', True], ['to_list'], ['to_array', 'q'], ['sum', False], ['max', True]]
 
 CONTEXTS = {
     'plain': None, 'mux': None,
@@ -202,17 +203,28 @@ class C09(Check):
                    'dist.update is compared through distogram.count / bounds / mean / bins against a reference fold with the same library']
     ANCHORS = ['rxsci/operators/scan.py', 'rxsci/operators/count.py', 'rxsci/data/to_list.py', 'rxsci/data/to_array.py', 'rxsci/math/dist/__init__.py']
     REQUIRED_TAGS = ['plain', 'mux', 'group', 'roll', 'roll_eq', 'split', 'time_split', 'generic', 'named', 'reduce', 'streaming', 'terminator',
-                     'factory', 'value-seed', 'mutable', 'empty-lifetime'] + ['op=' + n[0] for n in NAMED]
+                     'factory', 'value-seed', 'mutable', 'empty-lifetime', 'scale'] + ['op=' + n[0] for n in NAMED]
     REQUIRED_OBSERVED = ['accumulator_calls', 'terminator_calls', 'factory_calls', 'lifetimes_checked', 'identity_checks']
 
     def generate(self, rng, tier, shard, nshards):
-        n = 10000 if tier == 'quick' else 10 ** 7
+        n = 7500 if tier == 'quick' else 10 ** 7
         ctxs = list(CONTEXTS)
         for k in range(n):
             ctx = ctxs[k % len(ctxs)]
             node = CONTEXTS[ctx](rng) if CONTEXTS[ctx] else None
             ln = rng.choice([0, 1, 2, 5, 12, 30])
             items = [rng.randint(0, 9) for _ in range(ln)]
+            if k % 450 == 225:
+                # scale: lifetimes of more than 1024 items, batch sizes beyond the small-int cache, values beyond 2**31
+                ctx = ['plain', 'mux', 'group', 'roll_eq'][(k // 450) % 4]
+                node = {'plain': None, 'mux': None, 'group': ['group_by', 'mod:2', None], 'roll_eq': ['roll', 1100, 1100, None]}[ctx]
+                items = [rng.randint(0, 2 ** 33) for _ in range(rng.choice([1100, 2300]))]
+                if (k // 450) % 2:
+                    yield {'kind': 'named', 'op': NAMED_SCALE[(k // 900) % len(NAMED_SCALE)], 'ctx': ctx, 'ctx_node': node, 'items': items}
+                else:
+                    acc, seedn, terms = COMBOS[(k // 900) % 5]
+                    yield {'kind': 'generic', 'acc': acc, 'seed': seedn, 'term': terms[0], 'reduce': (k // 1800) % 2 == 0, 'ctx': ctx, 'ctx_node': node, 'items': items}
+                continue
             if ctx == 'time_split':
                 items = sorted(rng.randint(0, 30) for _ in range(ln))
             if k % 3 == 0:
@@ -252,6 +264,8 @@ class C09(Check):
     def evaluate(self, case):
         out = Outcome()
         out.tags += [case['ctx'].split('>')[0], case['kind']]
+        if len(case['items']) >= 1000:
+            out.tags.append('scale')
         if case['kind'] == 'named':
             return self._eval_named(case, out)
         return self._eval_generic(case, out)
